@@ -178,11 +178,11 @@ Definition in_domain (o : opn) (args : list val) : bool :=
                             | [] => false end
   (* gcd lcm: any integers in any representation *)
   | OGcd | OLcm => all_int args
-  (* isqrt: fixnums below 2^52 (beyond, the float square root is not modelled) and bignum objects whose
-     root does not fit in 64 bits (the root of a bignum is always a bignum object) *)
+  (* isqrt: every fixnum, negative bignum objects (arithmetic-error) and bignum objects whose root does not
+     fit in 64 bits (the root of a bignum is always a bignum object) *)
   | OIsqrt => match args with
-              | [VFix z] => in64 z && (z <? two52)
-              | [VBig z] => (0 <=? z) && negb (in64 (Z.sqrt z))
+              | [VFix z] => in64 z
+              | [VBig z] => (z <? 0) || negb (in64 (Z.sqrt z))
               | _ => false end
   end.
 
